@@ -396,6 +396,8 @@ def do_replay(check, path):
 
 
 def write_evidence(check, tier, seed, agg, nviol, extra_cov=None):
+    if os.environ.get("VERIF_NO_EVIDENCE"):
+        return "(evidence not written: VERIF_NO_EVIDENCE)"
     os.makedirs(os.path.join(VERIF, "evidence"), exist_ok=True)
     wall = agg["wall_s"]
     runs = agg["runs"]
